@@ -47,7 +47,7 @@ CONSTANTS MaxLen,     \* longest chain of filters explored
                                     \* "full" | "lite" | "tiny" | "off"
           Shapes,     \* action shapes explored in this run (subset of AllShapes)
           Flavours,   \* subset of {"sim","igl","iglmix","logged"}
-          Envs        \* subset of {"one","same","diff","samediff"}
+          Envs        \* subset of {"one","same","diff","samediff","rev"}
 
 VARIABLES case,     \* the environment as generated (never changes)
           acts,     \* acts[n][i]: current representation of the i-th action of interaction n
@@ -257,6 +257,7 @@ RewardKinds(sh) == {"list", "binary", "disc", "discrev", "discpart", "fn"}
                    \cup (IF sh = "dense" THEN {"hamming"} ELSE {}) \cup (IF sh = "scalar" THEN {"l1"} ELSE {})
 
 EnvUse(env) == CASE env = "one" -> <<1>> [] env = "same" -> <<1, 1>> [] env = "diff" -> <<1, 2, 1>> [] env = "samediff" -> <<1, 1, 2>>
+               [] env = "rev" -> <<2, 1>>      \* starts with the other action set: the SECOND environment a reused filter object meets
 
 (* the reward object of interaction n; mul / off make the feedbacks differ from the rewards *)
 MkR(rk, n, as, mul, off) ==
@@ -343,6 +344,17 @@ NoiseStep    == \E st \in NoiseSteps(LevelAt(Len(hist) + 1))    : Do(st)    \* N
 BatchStep    == \E st \in BatchSteps(LevelAt(Len(hist) + 1))    : Do(st)    \* Batch.filter 1264-1295
 UnbatchStep  == \E st \in UnbatchSteps(LevelAt(Len(hist) + 1))  : Do(st)    \* Unbatch.filter 1310-1332
 FinalizeStep == \E st \in FinalizeSteps(LevelAt(Len(hist) + 1)) : Do(st)    \* Finalize.filter 1658-1673
+(* THE REUSE RULE.  A filter object IS its constructor arguments: every action above is a function of the step `st` and   *)
+(* of the state of the environment it is applied to, nothing else - there is no variable in which a filter could keep       *)
+(* anything from one environment to the next.  So one and the same object (and one and the same Environments pipeline,      *)
+(* where `Environments([e1, e2]).repr()` hands ONE Repr to both) may filter environment 1, then environment 2, then         *)
+(* environment 1 again, and (own) every application owes what THIS module demands for ITS OWN input, whatever was           *)
+(* filtered before; (reread) filtering the same input again gives the same output as the first time.  For the seeded       *)
+(* NoiseStep that means the same noise: Noise.filter 931 starts a new CobaRandom(seed) per call, a re-read is not a        *)
+(* continuation of the previous stream (Densify's lookup may grow while it meets new keys, the keys it has met keep         *)
+(* their index: 497-516).  Emit hands the rule to the driver with every case.                                               *)
+Reuse == [own |-> "every application owes the expectation of its own input", reread |-> "identical"]
+
 Next == ReprStep \/ FlattenStep \/ SparsifyStep \/ DensifyStep \/ NoiseStep \/ BatchStep \/ UnbatchStep \/ FinalizeStep
 Spec == Init /\ [][Next]_vars
 
@@ -370,7 +382,8 @@ GroupsOk == /\ Concat(groups) = [n \in Ns |-> n]
             /\ (~batched => \A g \in DOMAIN groups : Len(groups[g]) = 1)
 (* re-applying a representation filter to its own output changes nothing (noise is the exception) *)
 IdemSteps == ReprSteps("full") \cup FlattenSteps("full") \cup SparsifySteps("full") \cup DensifySteps("full") \cup FinalizeSteps("full")
-Idempotent == \A st \in IdemSteps : \A n \in Ns : \A i \in DOMAIN acts[n] :
+Idempotent == case.rk = "list" =>      \* the representations do not depend on the reward kind: one of them is enough
+              \A st \in IdemSteps : \A n \in Ns : \A i \in DOMAIN acts[n] :
                  ActT(st, ActT(st, acts[n][i])) = ActT(st, acts[n][i])
 
 (* the edge of the domain: these relabellings DO merge actions, the guard in Do keeps such chains out *)
@@ -410,5 +423,5 @@ Emit ==
       batched |-> [d \in DOMAIN hist |-> hist[d].batched],
       kinds   |-> [d \in DOMAIN hist |-> hist[d].kind],
       expR  |-> case.expR, expF |-> case.expF, M |-> case.M, LR |-> case.LR, LP |-> case.LP,
-      finOK |-> FinOK, finGroups |-> FinGroups ]))
+      finOK |-> FinOK, finGroups |-> FinGroups, reuse |-> Reuse ]))
 =============================================================================
